@@ -172,8 +172,8 @@ static int vec_find(const unsigned char *r, const hmsg_t *m, int dtls, vecf_t *v
 }
 #undef VADD
 
-enum { VR_GROW1 = 0, VR_GROW16, VR_GROW200, VR_SHRINK1, VR_EMPTY, VR_DOUBLE, VR_N };
-static const char *vrname[VR_N] = { "grow+1", "grow+16", "grow+200", "shrink-1", "empty", "doubled" };
+enum { VR_GROW1 = 0, VR_GROW16, VR_GROW200, VR_SHRINK1, VR_EMPTY, VR_DOUBLE, VR_X8, VR_N };
+static const char *vrname[VR_N] = { "grow+1", "grow+16", "grow+200", "shrink-1", "empty", "doubled", "content-x8" };
 
 /* resize vector k of message mi of the record in buf (length *len, capacity cap); all enclosing lengths are fixed up.
  * returns 1 if applied */
@@ -199,6 +199,7 @@ static int vec_resize(unsigned char *buf, int *len, int cap, int dtls, int mi, i
     case VR_GROW200: delta = 200; break;
     case VR_SHRINK1: delta = -1; break;
     case VR_EMPTY: delta = -vl; break;
+    case VR_X8: delta = 7 * vl; break;
     default: delta = vl; break;
     }
     maxv = vw == 1 ? 0xff : vw == 2 ? 0xffff : 0xffffff;
@@ -224,7 +225,11 @@ static int vec_resize(unsigned char *buf, int *len, int cap, int dtls, int mi, i
     if (delta > 0)
     {
         memmove(buf + ve + delta, buf + ve, (size_t) (*len - ve));
-        if (var == VR_DOUBLE) memcpy(buf + ve, buf + vo + vw, (size_t) vl);
+        if (var == VR_DOUBLE || var == VR_X8)
+        {
+            int q;
+            for (q = 0; q < delta; q += vl) memcpy(buf + ve + q, buf + vo + vw, (size_t) vl);   /* whole copies of the content: every element, every extension repeated */
+        }
         else memset(buf + ve, 0x41, (size_t) delta);
     }
     else
